@@ -15,6 +15,14 @@ def main(tier_):
         v.violation(dict(sig, family="real-budgets"), desc, rep)
     cov["real_link_budgets"] = dict(states=covb["states"], cases=covb["traces_validated_against_impl"], budget_cases=covb["budget_cases"], budget_constant_drift=covb["budget_constant_drift"], oracle_vs_kernel_mismatch=covb["oracle_vs_kernel_mismatch"],
                                     agree_kernel=covb["agree_kernel"], agree_emulated=covb["agree_emulated"])
+    # mechanism-removal variants of the design (vacuity guard): each switch off must make TLC violate C01's invariants
+    variants = {}
+    base_cfg = open(os.path.join(SPEC, "MC_C01_quick.cfg")).read().replace("EmitCases = TRUE", "EmitCases = FALSE").replace(" CaseOut", "")
+    for mech in ("ClampDotDot", "RestartAbsAtRoot", "NoFollowOnOpen", "EmptyPathIsENOENT"):
+        cfgp = os.path.join(workdir(), "C01-no-%s.cfg" % mech)
+        open(cfgp, "w").write(base_cfg.replace("%s = TRUE" % mech, "%s = FALSE" % mech))
+        variants[mech] = run_tlc("MC_Lookup.tla", cfgp, workers=8, timeout=900)["violated"]
+    cov["mechanism_removal_variants"] = variants
     # long spellings (the quantifier: every path byte string shorter than PATH_MAX): thousands of components, 255/256-byte
     # names, paths at and beyond PATH_MAX -- library on both backends against the raw openat2 of the kernel
     from checks.lookup_static import op_to_calls
